@@ -123,7 +123,7 @@ func c04Rollback(c *Check, a *Anchors) {
 		return
 	}
 	c.Fn(a.BodyClosure)
-	pe := &PathEnum{Fn: fn, MaxRevisit: 1, Event: a.ssaLabel}
+	pe := &PathEnum{Fn: fn, MaxRevisit: revisit(), Event: a.ssaLabel}
 	pe.Name = isExitName(pe)
 	pe.Run()
 	c.Paths += len(pe.Paths)
